@@ -130,6 +130,8 @@ def _ensure():
         _state["dir"] = tempfile.mkdtemp(prefix="verif-C52-lazy-")
         _state["own_dir"] = True
     trace.be_quiet(True)
+    import logging
+    logging.getLogger("brz").setLevel(logging.CRITICAL)     # "conversion error: ..." warnings of refused upgrades
     ui.ui_factory = ui.SilentUIFactory()
     try:
         lockdir._DEFAULT_TIMEOUT_SECONDS = 0
@@ -263,11 +265,21 @@ def gen_world(rng, repo_kind, outer, branch_kind, tree_kind, gi=None):
         changes = []
         if tree_kind == "merge" and main_tip is None:
             tree_kind = "dirty"
+        cand = [] if main_tip is None else [r for r in range(n) if r not in daglib.ancestors(g, [main_tip])]
+        if tree_kind == "merge" and not cand:
+            if rng.random() < 0.7:          # prefer a tip that leaves something to merge
+                tips = [t for t in range(n) if len(daglib.ancestors(g, [t])) < n]
+                main_tip = rng.choice(tips)
+                if w["branch"] and "local" in w["branch"]:
+                    w["branch"]["local"]["tip"] = main_tip
+                for place in exist:
+                    if place == want_place or rng.random() < 0.5:
+                        w["others"][place]["tip"] = main_tip
+                cand = [r for r in range(n) if r not in daglib.ancestors(g, [main_tip])]
+            else:
+                tree_kind = "dirty"
         if tree_kind == "merge":
-            cand = [r for r in range(n) if r != main_tip and r not in daglib.ancestors(g, [main_tip])]
-            if not cand:
-                cand = [r for r in range(n) if r != main_tip]
-            merges = [rng.choice(cand)] if cand else []
+            merges = [rng.choice(cand)]     # set_parent_ids drops parents that are ancestors of the basis
             if rng.random() < 0.4:
                 changes = [2]
         elif tree_kind == "dirty":
@@ -330,7 +342,7 @@ def _reconf_case(rng, shape, target, nb="auto", force=None, gi=None):
         force = rng.random() < 0.15
     if (target == "use-shared" and w["repo"] is not None and w["repo"]["shared"] and w["branch"] == {"ref": 0}
             and w["others"][0]["own"] is None):
-        # finding C52-use-shared-destroys-unfetched-repository: afterwards the referenced branch has no usable
+        # finding C52-repository-destroyed-without-fetch: afterwards the referenced branch has no usable
         # repository, so a working tree could not even be opened for observation
         w["tree"] = None
     return {"kind": "reconf", "world": w, "target": target, "nb": nb, "force": bool(force)}
@@ -904,6 +916,8 @@ def _observe_cdir(path, ulocs):
         def lo(u):
             if u is None:
                 return None
+            if u == "":
+                return 0          # an empty location string (not None)
             for k, v in ulocs.items():
                 if u.rstrip("/") == v.rstrip("/"):
                     return k
@@ -956,7 +970,8 @@ def build_upgrade(inp, base):
             pa, bo, pu = inp["locs"]
             if pa is not None:
                 br.set_parent(ulocs[pa])
-            if pu is not None:
+            if pu is not None and FORMATS[inp["src"]][4] != 5:
+                # a format-5 branch keeps its push location in locations.conf, not in the branch
                 br.set_push_location(ulocs[pu])
             if bo is not None:
                 br.set_bound_location(ulocs[bo])
@@ -1273,14 +1288,17 @@ def finding_matches(fid, inp, obs, why):
             return why.startswith("tags-lost:") and inp["target"] == "lightweight" and _tags_clash(inp)
         if fid == "C52-pending-merge-not-fetched":
             return (why.startswith("pending-merge-lost:") and w["tree"] is not None and bool(w["tree"]["merges"])
-                    and inp["target"] in ("standalone", "branch", "tree", "checkout"))
-        if fid == "C52-use-shared-destroys-unfetched-repository":
-            return (why.startswith("revision-lost:") and inp["target"] == "use-shared" and w["repo"] is not None
-                    and not (w["branch"] and "local" in w["branch"]))
+                    and inp["target"] in ("standalone", "branch", "tree", "checkout", "lightweight"))
+        if fid == "C52-repository-destroyed-without-fetch":
+            return (why.startswith("revision-lost:") and inp["target"] in ("use-shared", "lightweight")
+                    and w["repo"] is not None and not (w["branch"] and "local" in w["branch"]))
         if fid == "C52-late-bind-refusal":
             return (why.startswith("refusal-changed-state:") and inp["target"] == "checkout"
                     and ("NoBindLocation" in why or "NotBranchError" in why))
         return False
+    if fid == "C52-upgrade-5to6-empty-push-location":
+        return (why.startswith("branch-payload-changed") and FORMATS[inp["src"]][4] == 5
+                and FORMATS[inp["dst"]][4] > 5 and why.rstrip().endswith(", 0]]"))
     if fid == "C52-upgrade-colo-hang":
         return why.startswith("upgrade-hang:") and FORMATS[inp["dst"]][0]
     if fid == "C52-upgrade-tree-downgrade-hang":
